@@ -35,6 +35,7 @@ type Terms struct {
 	depth       int
 	// InlineDepth bounds getter inlining.
 	InlineDepth int
+	storeCount  map[string]int // stores per "pkg:Type.memberIndex" in the built functions (writeOnceMember)
 }
 
 func NewTerms(p *Prog) *Terms {
@@ -213,6 +214,13 @@ func (t *Terms) term(v ssa.Value) string {
 				}
 				return "load(" + t.T(a) + ")" + t.id(x)
 			}
+			// a member of a local object that is assigned exactly once in the whole program - where the object is
+			// built, before this load - denotes the assigned value (`g := &generator{idl: x}` ... `g.idl`)
+			if fa, ok := x.X.(*ssa.FieldAddr); ok {
+				if val := t.writeOnceMember(fa, x); val != nil {
+					return t.T(val)
+				}
+			}
 			if g, ok := x.X.(*ssa.Global); ok {
 				// a package variable that is only ever assigned by its initialiser denotes the initialiser's value
 				if val := t.p.ConstGlobal(g); val != nil {
@@ -299,6 +307,77 @@ func (t *Terms) term(v ssa.Value) string {
 func shortQual(p *types.Package) string { return p.Name() }
 
 // resolveFree maps a closure's free variable to the value bound to it at the (single) MakeClosure.
+// writeOnceMember: fa addresses member i of a local object (an Alloc of a named struct of the repository) and the only
+// store to member i of that type in the repository is one store to this object that dominates the load ld; returns the
+// stored value (nil otherwise).
+func (t *Terms) writeOnceMember(fa *ssa.FieldAddr, ld *ssa.UnOp) ssa.Value {
+	al, ok := fa.X.(*ssa.Alloc)
+	if !ok {
+		return nil
+	}
+	named, ok := al.Type().(*types.Pointer).Elem().(*types.Named)
+	if !ok || named.Obj().Pkg() == nil || t.p.Pkgs[named.Obj().Pkg().Path()] == nil {
+		return nil
+	}
+	if _, isStruct := named.Underlying().(*types.Struct); !isStruct {
+		return nil
+	}
+	key := fmt.Sprintf("%s.%d", named.Obj().Name(), fa.Field)
+	if t.storeCount == nil {
+		// count the stores per (type, member) over the built functions once
+		t.storeCount = map[string]int{}
+		for _, f := range t.p.Funcs {
+			for _, b := range f.Blocks {
+				for _, in := range b.Instrs {
+					st, ok := in.(*ssa.Store)
+					if !ok {
+						continue
+					}
+					fa2, ok := st.Addr.(*ssa.FieldAddr)
+					if !ok {
+						continue
+					}
+					pt, ok := fa2.X.Type().Underlying().(*types.Pointer)
+					if !ok {
+						continue
+					}
+					if n2, ok := pt.Elem().(*types.Named); ok && n2.Obj().Pkg() != nil {
+						t.storeCount[fmt.Sprintf("%s:%s.%d", n2.Obj().Pkg().Path(), n2.Obj().Name(), fa2.Field)]++
+					}
+				}
+			}
+		}
+	}
+	if t.storeCount[named.Obj().Pkg().Path()+":"+key] != 1 {
+		return nil
+	}
+	// the one store, in this function, to this object, dominating the load
+	var val ssa.Value
+	n := 0
+	for _, r := range *al.Referrers() {
+		fa2, ok := r.(*ssa.FieldAddr)
+		if !ok || fa2.Field != fa.Field {
+			continue
+		}
+		for _, r2 := range *fa2.Referrers() {
+			if st, ok := r2.(*ssa.Store); ok && st.Addr == ssa.Value(fa2) {
+				n++
+				if st.Block() == ld.Block() {
+					if instrIndex(st) < instrIndex(ld) {
+						val = st.Val
+					}
+				} else if st.Block().Dominates(ld.Block()) {
+					val = st.Val
+				}
+			}
+		}
+	}
+	if n != 1 {
+		return nil
+	}
+	return val
+}
+
 func (t *Terms) resolveFree(v ssa.Value) ssa.Value {
 	for i := 0; i < 4; i++ {
 		x, ok := v.(*ssa.FreeVar)
